@@ -8,6 +8,7 @@ loaded object with the ground truth.  The oracle never calls libvna.
 """
 import math
 import os
+import zlib
 import sys
 
 import numpy as np
@@ -297,7 +298,8 @@ def gen_npd_member(rng, gt, sdata, zin, idx, k):
         for _ in range(50):
             p = [hdr[i] for i in rng.permutation(len(hdr))]
             names = [a for a, _ in p]
-            if names.index("ports") < names.index("z0"):
+            if "z0" not in names or \
+                    names.index("ports") < names.index("z0"):
                 return p
         return hdr
     level = float(wchoice(rng, [0.0, 1.0, 2.0], [2, 5, 2]))
@@ -306,7 +308,8 @@ def gen_npd_member(rng, gt, sdata, zin, idx, k):
                         header_order=permute if rng.random() < 0.7 else None,
                         numstyle=numstyle, decor=TS.Decor(rng, "#", level),
                         with_key=rng.random() < 0.3,
-                        extra_header=rng.random() < 0.6)
+                        extra_header=rng.random() < 0.6,
+                        omit_default_z0=rng.random() < 0.6)
     r = rng.random()
     ext = ".npd" if r < 0.7 else wchoice(rng, ["", ".dat"], [1, 1])
     ft = None
@@ -321,11 +324,29 @@ def gen_npd_member(rng, gt, sdata, zin, idx, k):
 
 
 # ----------------------------------------------------------------------
+USED = ["vnadata_init $vd Z 1 1 2\nvnadata_set_frequency_vector $vd auto\n"
+        "vnadata_set_matrix $vd 0 auto\nvnadata_set_all_z0 $vd 0x1.9p+6 0x1p+2",
+        "vnadata_init $vd S 3 3 1\nvnadata_set_matrix $vd 0 auto\n"
+        "vnadata_set_fz0 $vd 0 2 0x1.2cp+6 0x1p+1",
+        "vnadata_init $vd H 2 2 5\nvnadata_set_frequency_vector $vd auto\n"
+        "vnadata_set_matrix $vd 4 auto\nvnadata_set_z0 $vd 1 0x1.2cp+6 0x0p+0",
+        "vnadata_init $vd ZIN 1 6 7\nvnadata_set_frequency_vector $vd auto\n"
+        "vnadata_set_fz0 $vd 3 1 0x1.2cp+6 0x1p+1\n"
+        "vnadata_set_fz0 $vd 0 0 0x1p+3 0x0p+0"]
+
+
 def build_script(m):
     s = R.Script()
     L = {}
     s.op("write_file", R.qs(m["name"]), R.qs(m["bytes"]))
     s.op("vd=vnadata_alloc")
+    used = zlib.crc32(m["name"].encode()) % 10
+    if used < len(USED):
+        # the destination held something else before: other type and
+        # dimensions, more frequencies, other (per-frequency) impedances
+        for ln in USED[used].split("\n"):
+            s.op(ln)
+        m["used"] = used
     if m["ft"] is not None:
         s.op("vnadata_set_filetype", "$vd", m["ft"])
     if m["fload"]:
